@@ -405,7 +405,7 @@ VIOLATED, DETAIL = False, 'structural obligation: a function that draws random n
                     u.static(nm, verdict, gfi.qualname, f"{ctor}({src}) in {gfi.name}: " + ("a number for every input" if verdict else "absent or possibly None (e.g. the model's own optional seed): seeded from OS entropy, "
                              "the draws ignore a pipeline seed"), witness={"function": gfi.name, "line": line, "seed": src},
                              replay=PRIVATE_REPLAYS.get(fn.name, lambda w, name=fn.name: {"code": f"VIOLATED, DETAIL = False, 'structural obligation: entropy-seeded private generator on the chain of {name} (see witness); no prepared scenario'", "expect": "private generators are seeded from the seed context"}))
-    u.static("model.frame.cover", n >= 10, "", f"{n} model functions with a seed parameter found by scanning pyxel/models")
+    u.guard("model.frame.cover", n >= 10, "", f"{n} model functions with a seed parameter found by scanning pyxel/models")
 
 
 @unit("C04", "no_reseed")
@@ -492,7 +492,7 @@ def numba_draws(u: Unit):
             tag = f"{mi.relpath.split('/')[-1]}::{fn.name}"
             u.static(f"numba.draws_follow_the_seed[{tag}]", bool(seeds) and not any("parallel=True" in d for d in fn.decorators), fn.qualname, f"{', '.join(draws)} inside a numba-compiled function: drawn from numba's generator, not from the seeded numpy generator",
                      witness={"function": fn.qualname, "draws": draws}, replay=NUMBA_REPLAY)
-    u.static("numba.draws.cover", n >= 5, "", f"{n} numba-compiled functions scanned")
+    u.guard("numba.draws.cover", n >= 5, "", f"{n} numba-compiled functions scanned")
 
 
 @unit("C04", "flow")
